@@ -557,6 +557,12 @@ func RunMain(id, tier string, replayIdx int) int {
 	if ck.Workers != nil {
 		nw = ck.Workers(tier)
 	}
+	if s := os.Getenv("VERIF_WORKERS"); s != "" {
+		// development aid (mutation sweep runs several checks side by side); the case set does not depend on it
+		if v, err := strconv.Atoi(s); err == nil && v > 0 && v < nw {
+			nw = v
+		}
+	}
 	if replayIdx >= 0 {
 		nw = 1
 	}
